@@ -255,10 +255,26 @@ class MaskCombinator(Generic[R], GenerativeFunction[Mask[R]]):
         assert isinstance(bwd_request, Update)
         inner_chm = bwd_request.constraint
 
+        if isinstance(retdiff, Mask):
+            # The inner function returns a masked value: combine the flags (as `Mask.build`
+            # does for primal values) and tag the combined flag conservatively.
+            flag = FlagOp.and_(
+                Diff.tree_primal(check_diff), Diff.tree_primal(retdiff.flag)
+            )
+            unchanged = Diff.static_check_no_change(
+                check_diff
+            ) and Diff.static_check_no_change(retdiff.flag)
+            masked_retdiff = Mask(
+                retdiff.value,
+                Diff.no_change(flag) if unchanged else Diff.unknown_change(flag),
+            )
+        else:
+            masked_retdiff = Mask.build(retdiff, check_diff)
+
         return (
             MaskTrace.build(self, premasked_trace, post_check),
             final_weight,
-            Mask.build(retdiff, check_diff),
+            masked_retdiff,
             Update(
                 inner_chm.mask(pre_check),
             ),
